@@ -33,7 +33,7 @@ class SizeRule(sym.Rule):
         #  destroys on the path: frozenset (a, b),
         #  pending decreases: frozenset (obj, newEND, oldEND, desc),
         #  objects whose pointer was rewritten)
-        return (frozenset(), frozenset(), frozenset(), frozenset())
+        return (frozenset(), frozenset(), frozenset(), frozenset(), frozenset(), frozenset(), frozenset())
 
     def cells(self, obj, eng):
         pa = sa = None
@@ -54,29 +54,38 @@ class SizeRule(sym.Rule):
         return d, s, lin_add(d, lin_scale(s, self.s))
 
     def on_event(self, rs, ev, st, f, eng):
-        cons, dest, dec, reptr = rs
+        cons, dest, dec, reptr, newbuf, allocs, freed = rs
         if ev.kind == 'store' and ev.field == 0:
-            return (cons, dest, dec, reptr | {obj_of(ev.addr)})
+            return (cons, dest, dec, reptr | {obj_of(ev.addr)}, newbuf, allocs, freed)
         if ev.kind == 'havoc' and ev.args:
             # a loop re-entry forgot the words: later updates on this path cannot be related to
             # the end observed before (they are judged in the callee that performs them)
-            return (frozenset(), dest, dec, reptr | {'*'})
+            return (frozenset(), dest, dec, reptr | {'*'}, newbuf, allocs, freed)
         if ev.kind == 'store' and ev.field == 2:
             obj = obj_of(ev.addr)
             if obj in reptr or '*' in reptr or self.is_ctor:
-                return (frozenset(), dest, dec, reptr)
+                return (frozenset(), dest, dec, reptr, newbuf, allocs, freed)
             pa, sa = self.cells(obj, eng)
             if pa is None or sa is None or sa != ev.addr:
                 return rs
             old = ev.old
             data = eng.load(st, pa)
-            return self.size_change(rs, obj, data, old, ev.val, ev, st, f, eng)
+            r4 = self.size_change((cons, dest, dec, reptr), obj, data, old, ev.val, ev, st, f, eng)
+            return r4 + (newbuf, allocs, freed)
         if ev.kind in ('call', 'throw') and ev.callee and ev.args is not None:
             name = ev.callee
             eff = self.orc.effects.get(name, frozenset())
             kind = self.orc.kind.get(name)
             tys = ev.argtys or []
             eptrs = [a for i, a in enumerate(ev.args) if sym.is_lin(a) and i < len(tys) and tys[i] and tys[i].strip() == self.elem_ptr]
+            if ev.kind == 'call' and kind == 'ALLOC' and ev.ret is not None:
+                return (cons, dest, dec, reptr, newbuf, allocs | {single_atom(ev.ret)}, freed)
+            if ev.kind == 'call' and kind == 'DEALLOC' and len(ev.args) >= 2:
+                a0 = single_atom(ev.args[1])
+                if a0 is not None:
+                    freed = freed | {a0}
+                return (cons, dest, dec, reptr, newbuf, allocs, freed)
+            cons0 = cons
             if ev.kind == 'call':
                 ctor_only = bool(eff & cg.ELEM_CTOR) and not (eff & (cg.ELEM_ASSIGN | {'ELEM_SWAP'})) \
                     and not self.orc.writes_fields.get(name)
@@ -89,7 +98,14 @@ class SizeRule(sym.Rule):
                     endt = None
                     if 'ELEM_DTOR' in eff or True:
                         pretty = self.orc.pretty.get(name, '')
-                    startc = eptrs[:]   # any element-pointer argument may be the start
+                    # any element-pointer argument may be the start of the construction, except a
+                    # pair that is exactly [begin, end) of a container (that is the source range)
+                    startc = eptrs[:]
+                    objs = set(a[2] for a, k2 in eng.field_tag.items() if k2 == 0)
+                    for o in objs:
+                        d0, s0, e0 = self.cur_end(o, st, eng)
+                        if d0 is not None and d0 in startc and e0 in startc and d0 != e0:
+                            startc = [x for x in startc if x != d0 and x != e0]
                     rets = ev.ret
                     for p in startc:
                         cons = cons | {(p, None, where(ev, self.orc))}
@@ -102,7 +118,20 @@ class SizeRule(sym.Rule):
                         dest = dest | {(eptrs[0], lin_add(eptrs[0], L(self.s)))}
                     elif len(eptrs) >= 2:
                         dest = dest | {(eptrs[-2], eptrs[-1])}
-            return (cons, dest, dec, reptr)
+            if ev.kind == 'call' and eptrs and (kind in cg.ELEM_CTOR or (
+                    bool(eff & cg.ELEM_CTOR) and not (eff & (cg.ELEM_ASSIGN | {'ELEM_SWAP'})) and not self.orc.writes_fields.get(name))):
+                # destinations in a buffer allocated on this path: one such pointer = start of a
+                # construction of unknown length; two = the [first, last) of a fill
+                nb = [a for a in eptrs if any(r in allocs for r, co in a[2])]
+                desc = where(ev, self.orc)
+                if kind in cg.ELEM_CTOR:
+                    if nb and nb[0] is eptrs[0]:
+                        newbuf = newbuf | {(nb[0], lin_add(nb[0], L(self.s)), desc)}
+                elif len(nb) == 1:
+                    newbuf = newbuf | {(nb[0], None, desc)}
+                elif len(nb) == 2:
+                    newbuf = newbuf | {(nb[0], nb[1], desc)}
+            return (cons, dest, dec, reptr, newbuf, allocs, freed)
         return rs
 
     def size_change(self, rs, obj, data, old, new, ev, st, f, eng):
@@ -158,10 +187,67 @@ class SizeRule(sym.Rule):
         self.reports[dk] = Report('R06.3', False, {'function': bn, 'defect': what},
                                   'R06.3: %s: %s (at %s) (%s)' % (bn, what, where(ev, self.orc) if ev is not None else 'exit', self.cfg.name), d)
 
+    def nonneg(self, t, eng=None):
+        if t[1] < 0:
+            return False
+        neg = [(a, c) for a, c in t[2] if c < 0]
+        if not neg:
+            return True
+        # (position parameter - data pointer on entry) is an offset into the buffer: non-negative
+        if eng is not None and len(neg) == 1 and neg[0][1] == -1 and neg[0][0][0] == 'init' \
+                and eng.field_tag.get(neg[0][0][1]) == 0:
+            pos = [(a, c) for a, c in t[2] if c == 1 and a[0] == 'arg']
+            if len(pos) >= 1:
+                return all(c >= 0 for a, c in t[2] if (a, c) != neg[0])
+        return False
+
     def on_exit(self, rs, kind, st, f, eng, rv=None):
-        cons, dest, dec, reptr = rs
+        cons, dest, dec, reptr, newbuf, allocs, freed = rs
         if kind not in ('ret', 'unwind'):
             return
+        if kind == 'unwind':
+            bn = base_name(f.pretty)
+            # (a) constructed behind the end, not yet covered by the size, and not destroyed
+            if '*' not in reptr and not self.is_ctor:
+                this = ((('arg', 0), 1),)
+                if this not in reptr:
+                    d, sz, end = self.cur_end(this, st, eng)
+                    if end is not None:
+                        for (start, e, desc) in cons:
+                            if start == end and not any(a == start for (a, b) in dest):
+                                dk = (f.name, 'uncommitted', desc)
+                                if dk not in self.reports:
+                                    self.reports[dk] = Report(
+                                        'R06.3', False, {'function': bn, 'defect': 'elements constructed beyond size are abandoned when a later call throws'},
+                                        'R06.3: %s: elements were constructed at the end of the container (%s) but the size had not been advanced '
+                                        'when a later call threw, and the handler does not destroy them: they are never destroyed (%s)'
+                                        % (bn, desc, self.cfg.name),
+                                        {'function': f.pretty[:300], 'config': self.cfg.name, 'file': 'source/include/gch/small_vector.hpp'})
+            # (b) elements constructed into a new buffer that is released on this path
+            for (start, e, desc) in newbuf:
+                if '*' in reptr or any(x[0] == 'loopvar' for x in sym.atoms_of(start)):
+                    continue      # constructions inside loops are the self-cleaning helpers' business (R03.2)
+                base = [r for r, co in start[2] if r in allocs]
+                if not base or base[0] not in freed:
+                    continue
+                covered = False
+                for (a, b) in dest:
+                    opaque_end = any(x[0] == 'ret' and x not in allocs for x in sym.atoms_of(b))
+                    if (a == start or (any(r == base[0] for r, co in a[2]) and self.nonneg(lin_sub(start, a), eng))) \
+                            and (e is None or b == e or opaque_end or self.nonneg(lin_sub(b, e), eng)):
+                        covered = True
+                dk = (f.name, 'newbuf', desc, covered)
+                if dk in self.reports:
+                    continue
+                if covered:
+                    self.reports[dk] = Report('R03.6', True, None, sample={'function': bn, 'constructed': desc, 'config': self.cfg.name})
+                else:
+                    self.reports[dk] = Report(
+                        'R03.6', False, {'function': bn, 'defect': 'element built in a new buffer is not destroyed before the buffer is released'},
+                        'R03.6: %s: an element constructed in the newly allocated buffer (%s) is not covered by any destruction on the '
+                        'exception path that releases that buffer: it is never destroyed (%s)' % (bn, desc, self.cfg.name),
+                        {'function': f.pretty[:300], 'config': self.cfg.name, 'destroyed': [repr(x)[:150] for x in dest][:4],
+                         'file': 'source/include/gch/small_vector.hpp'})
         for (obj, new_end, old_end, desc) in dec:
             if obj in reptr or '*' in reptr:
                 continue
